@@ -60,6 +60,15 @@ def l2_monitor(spec, rec, obs):
             live[(r["step"], r["inv"])] = r["step"]
         elif r["kind"] == "exit":
             live.pop((r["step"], r["inv"]), None)
+    if obs.done and isinstance(obs.exception, WorkflowTimeoutError) and spec.get("timeout"):
+        # a run one of whose steps RETURNED a StopEvent before the deadline has finished first
+        t0_ = rec.log[0]["t"]
+        early = [r for r in rec.log if r["kind"] == "return" and "Stop" in r["ev"] and r["t"] - t0_ < spec["timeout"]]
+        if early:
+            out.append("step %s returned a StopEvent %s s after the start, before the timeout of %s s, yet the run was timed out "
+                       "(WorkflowTimeoutError)" % (early[0]["step"], early[0]["t"] - t0_, spec["timeout"]))
+    if obs.done and obs.exception is None and spec.get("mode") == "stop_race_slow_unwind":
+        facts["finished_during_slow_unwind"] = 1
     if obs.done and isinstance(obs.exception, WorkflowTimeoutError):
         facts["timed_out"] = 1
         ev = [e for e in obs.stream if isinstance(e, WorkflowTimedOutEvent)]
